@@ -553,7 +553,12 @@ type vcAttachedPub struct {
 
 // vcAttachPub attaches a new fake publisher (LPCM 16 bit / 48 kHz / 2 ch) to path name.
 func vcAttachPub(pm *pathManager, name string, tag string) (*vcAttachedPub, error) {
-	p := &vcAttachedPub{vcPub: vcNewPub(tag), Desc: vcDescLPCM()}
+	return vcAttachPubDesc(pm, name, tag, vcDescLPCM())
+}
+
+// vcAttachPubDesc attaches a new fake publisher announcing desc.
+func vcAttachPubDesc(pm *pathManager, name string, tag string, desc *description.Session) (*vcAttachedPub, error) {
+	p := &vcAttachedPub{vcPub: vcNewPub(tag), Desc: desc}
 	res, err := pm.AddPublisher(defs.PathAddPublisherReq{
 		Author:        p.vcPub,
 		Desc:          p.Desc,
